@@ -554,6 +554,15 @@ func runC09(res *Result, tier string, seed int64, replay string) {
 							at.Kids = append(at.Kids, mk(tag, attr, loser))
 						}
 						find(d).Set(attr, v1)
+						if lv == "tag-default" {
+							// the tag default reaches every element of that tag in the context (the second image of a
+							// carousel, …): all of them write the value themselves, so the default must be irrelevant
+							d.child("mj-body").Walk(func(x *Node) {
+								if x.Tag == tag {
+									x.Set(attr, v1)
+								}
+							})
+						}
 					})
 				}
 				d2, d1 := mkDoc(v2), mkDoc(v1)
